@@ -47,6 +47,8 @@ def plan(tier, seed):
         jobs.append({"name": "bf3_%02d" % i, "spec": {"kind": "bf3", "n": n // NSH, "many": i < (1 if tier == "quick" else 4)}})
     for i in range(4 if tier == "quick" else 16):
         jobs.append({"name": "hist%02d" % i, "spec": {"kind": "histories", "n": 120 if tier == "quick" else 4000}})
+    for i in range(2 if tier == "quick" else 8):
+        jobs.append({"name": "threads%02d" % i, "spec": {"kind": "threads", "rounds": 4 if tier == "quick" else 60}})
     nb = 1280 if tier == "quick" else 40000
     for i in range(NSH):
         jobs.append({"name": "bec2_%02d" % i, "spec": {"kind": "bec2", "n": nb // NSH, "i": i}})
@@ -55,7 +57,7 @@ def plan(tier, seed):
 
 def mandatory_bins(tier):
     b = ["offset_%d" % o for o in OFFSETS] + ["offset_random", "tag_order_not_sorted", "encrypted_component", "zero_components", "eight_tags",
-         "text_stream", "text_path", "bec2", "appnote_scripts", "block_cust_opened", "block_update_opened", "block_ecc_opened", "customer_key_in_slot", "histories_under_layout_hooks", "second_export_after_in_place_mutation", "more_than_255_components", "directory_larger_than_64k", "bec2_without_auth_blocks", "encrypted_payload_over_8k", "same_component_object_listed_twice"]
+         "text_stream", "text_path", "bec2", "appnote_scripts", "block_cust_opened", "block_update_opened", "block_ecc_opened", "customer_key_in_slot", "histories_under_layout_hooks", "second_export_after_in_place_mutation", "more_than_255_components", "directory_larger_than_64k", "bec2_without_auth_blocks", "encrypted_payload_over_8k", "same_component_object_listed_twice", "exports_by_concurrent_threads", "one_object_exported_by_concurrent_threads"]
     b += ["blocks_" + "+".join(l) for l in GB.all_block_lists()]
     return b
 
@@ -243,6 +245,55 @@ def run_shard(spec, ctx):
                     f0.write_file(io.StringIO())
                 if i == 0:
                     ctx.sample({"kind": "bf3", "offset": off, "key": key, "case": case.to_json()})
+            return
+        if kind == "threads":
+            # several threads exporting at the same time - their own objects, or ONE shared object with different keys / offsets -
+            # interleaved at every source line of the writer code; the layout hooks judge every output against the model of the
+            # object and arguments of that call
+            from ..sched import yieldrun
+
+            BFm, Bm = ns.bf3file, ns.bec2file
+            codes = yieldrun.code_objects_of(BFm, BFm.Bf3File, BFm.Bf3Component, Bm.Bec2File, Bm.AesEncryptorMixin, Bm.SoftwareCustKeyEncryptor, Bm.InitCustKeyAuthBlock, Bm.UpdateAuthBlock, Bm.AuthBlock, ns.plugin.AES128Proxy, ns.aes.AESModeOfOperationCBC)
+            total = 0
+            for rnd in range(spec["rounds"]):
+                nthreads = (2, 3)[rnd % 2]
+                shared = rnd % 2 == 1
+                cases = [gen_case_c03(rng) for _ in range(nthreads)]
+                for c_ in cases:
+                    c_.comps = c_.comps[:3]
+                keys = [G.gen_key(rng) if rng.random() < 0.7 else rng.randbytes(16) for _ in range(nthreads)]
+                if rnd % 4 >= 2:
+                    keys = [keys[0]] * nthreads  # all threads under one session key
+                offs = [rng.choice(OFFSETS) for _ in range(nthreads)]
+                objs = [G.build_real(ns, cases[0 if shared else i]) for i in range(nthreads)]
+                if shared:
+                    objs = [objs[0]] * nthreads
+                bspecs = GB.gen_blocks(rng, rng.choice((("cust",), ("update",), ("cust", "update"))))
+
+                def body(i):
+                    def run():
+                        objs[i].to_binary(offs[i], keys[i])
+                        buf = io.StringIO()
+                        if i % 2:
+                            Bm.Bec2File(objs[i], GB.real_auth_blocks(ns, bspecs), keys[i]).write_file(buf, GB.write_encryptors(ns, bspecs))
+                        else:
+                            objs[i].write_file(buf, keys[i])
+                        return len(buf.getvalue())
+                    return run
+
+                mon.current_replay = {"kind": "threads", "shared_object": shared}
+                res, y = yieldrun.run_concurrently([body(i) for i in range(nthreads)], codes, sleep=0.0001, max_yields=25000)
+                total += y
+                ctx.ev(nthreads)
+                ctx.bin("exports_by_concurrent_threads")
+                if shared:
+                    ctx.bin("one_object_exported_by_concurrent_threads")
+                ctx.distinct("threads", rnd, [c_.digest_parts() for c_ in cases], keys, offs)
+                for r in res:
+                    if r is not None and r[0] == "exc" and not any(len(c.desc_bytes()) > 210 for c_ in cases for c in c_.comps):
+                        ctx.violation("writer_raises_on_object_in_domain", {"exc": r[1], "concurrent": True}, {"kind": "threads"})
+            ctx.mon("line_yields_injected", total)
+            ctx.sample({"kind": "threads", "rounds": spec["rounds"], "line_yields": total})
             return
         if kind == "histories":
             # object states reached through operation histories (set_config, derive, insert, write+read back ...):
